@@ -98,5 +98,118 @@ impl Profile {
         (r is Ok && !debug) ==> final(self).density.ok()
 //@end
 }
+
+/// PoreProfile: the profile plus post-processed observables (not kept)
+pub struct Pore { pub profile: Profile }
+impl Pore {
+//@skeleton feos-dft/src/adsorption/pore.rs PoreProfile::solve_inplace name=pore_solve_inplace
+//@returns Result<(), SkErr>
+//@params &mut self, debug: bool
+//@event solve args=1
+//@trackfield profile
+//@readonly grand_potential,grand_potential_density,integrate,volume,pressure,total_moles,vapor,liquid,sum_axis,raw_dim,get
+//@on stmt self.grand_potential = $..r => ;
+//@on stmt self.interfacial_tension = $..r => ;
+    ensures
+        // C18.1c: Ok (debug = false) only with a stored profile whose residual was found below the tolerance
+        (r is Ok && !debug) ==> final(self).profile.density.ok()
+//@end
+/// contract of PoreProfile::solve_inplace as discharged above (`pore_solve_inplace`), for its caller
+#[verifier::external_body] pub fn solve_inplace(&mut self, debug: bool) -> (r: Result<(), SkErr>)
+    ensures (r is Ok && !debug) ==> final(self).profile.density.ok() { unimplemented!() }
+//@skeleton feos-dft/src/adsorption/pore.rs PoreProfile::solve name=pore_solve
+//@returns Result<Pore, SkErr>
+//@params mut self
+//@event solve_inplace args=1
+    ensures
+        // C18.1c: the public solve never asks for the debug behaviour: Ok means converged
+        r is Ok ==> r->Ok_0.profile.density.ok()
+//@end
+}
+
+/// PlanarInterface: the profile plus post-processed observables (not kept)
+pub struct Planar { pub profile: Profile }
+impl Planar {
+//@skeleton feos-dft/src/interface/mod.rs PlanarInterface::solve_inplace name=planar_solve_inplace
+//@returns Result<(), SkErr>
+//@params &mut self, debug: bool
+//@event solve args=1
+//@trackfield profile
+//@readonly grand_potential,grand_potential_density,integrate,volume,pressure,total_moles,vapor,liquid,sum_axis,raw_dim,get
+//@on stmt self.surface_tension = $..r => ;
+//@on stmt self.equimolar_radius = $..r => ;
+    ensures
+        // C18.1c: Ok (debug = false) only with a stored profile whose residual was found below the tolerance
+        (r is Ok && !debug) ==> final(self).profile.density.ok()
+//@end
+/// contract of PlanarInterface::solve_inplace as discharged above (`planar_solve_inplace`), for its caller
+#[verifier::external_body] pub fn solve_inplace(&mut self, debug: bool) -> (r: Result<(), SkErr>)
+    ensures (r is Ok && !debug) ==> final(self).profile.density.ok() { unimplemented!() }
+//@skeleton feos-dft/src/interface/mod.rs PlanarInterface::solve name=planar_solve
+//@returns Result<Planar, SkErr>
+//@params mut self
+//@event solve_inplace args=1
+    ensures
+        // C18.1c: the public solve never asks for the debug behaviour: Ok means converged
+        r is Ok ==> r->Ok_0.profile.density.ok()
+//@end
+}
+
+/// SolvationProfile: the profile plus post-processed observables (not kept)
+pub struct Solvation { pub profile: Profile }
+impl Solvation {
+//@skeleton feos-dft/src/solvation/solvation_profile.rs SolvationProfile::solve_inplace name=solvation_solve_inplace
+//@returns Result<(), SkErr>
+//@params &mut self, debug: bool
+//@event solve args=1
+//@trackfield profile
+//@readonly grand_potential,grand_potential_density,integrate,volume,pressure,total_moles,vapor,liquid,sum_axis,raw_dim,get
+//@on stmt self.grand_potential = $..r => ;
+//@on stmt self.solvation_free_energy = $..r => ;
+    ensures
+        // C18.1c: Ok (debug = false) only with a stored profile whose residual was found below the tolerance
+        (r is Ok && !debug) ==> final(self).profile.density.ok()
+//@end
+/// contract of SolvationProfile::solve_inplace as discharged above (`solvation_solve_inplace`), for its caller
+#[verifier::external_body] pub fn solve_inplace(&mut self, debug: bool) -> (r: Result<(), SkErr>)
+    ensures (r is Ok && !debug) ==> final(self).profile.density.ok() { unimplemented!() }
+//@skeleton feos-dft/src/solvation/solvation_profile.rs SolvationProfile::solve name=solvation_solve
+//@returns Result<Solvation, SkErr>
+//@params mut self
+//@event solve_inplace args=1
+    ensures
+        // C18.1c: the public solve never asks for the debug behaviour: Ok means converged
+        r is Ok ==> r->Ok_0.profile.density.ok()
+//@end
+}
+
+/// PairCorrelation: the profile plus post-processed observables (not kept)
+pub struct PairCorr { pub profile: Profile }
+impl PairCorr {
+//@skeleton feos-dft/src/solvation/pair_correlation.rs PairCorrelation::solve_inplace name=paircorr_solve_inplace
+//@returns Result<(), SkErr>
+//@params &mut self, debug: bool
+//@event solve args=1
+//@trackfield profile
+//@readonly grand_potential,grand_potential_density,integrate,volume,pressure,total_moles,vapor,liquid,sum_axis,raw_dim,get
+//@on stmt self.pair_correlation_function = $..r => ;
+//@on stmt self.self_solvation_free_energy = $..r => ;
+//@on stmt self.structure_factor = $..r => ;
+    ensures
+        // C18.1c: Ok (debug = false) only with a stored profile whose residual was found below the tolerance
+        (r is Ok && !debug) ==> final(self).profile.density.ok()
+//@end
+/// contract of PairCorrelation::solve_inplace as discharged above (`paircorr_solve_inplace`), for its caller
+#[verifier::external_body] pub fn solve_inplace(&mut self, debug: bool) -> (r: Result<(), SkErr>)
+    ensures (r is Ok && !debug) ==> final(self).profile.density.ok() { unimplemented!() }
+//@skeleton feos-dft/src/solvation/pair_correlation.rs PairCorrelation::solve name=paircorr_solve
+//@returns Result<PairCorr, SkErr>
+//@params mut self
+//@event solve_inplace args=1
+    ensures
+        // C18.1c: the public solve never asks for the debug behaviour: Ok means converged
+        r is Ok ==> r->Ok_0.profile.density.ok()
+//@end
+}
 } // verus!
 fn main() {}
